@@ -538,19 +538,25 @@ class Ctx:
         if rel is None:
             rel = lambda c, e, g: e == g
         assert len(cases) == len(expected) == len(got), (len(cases), len(expected), len(got))
-        # canaries: corrupted expectations must be flagged by rel
+        # canary: the comparator must flag a corrupted expectation. A relation may legitimately ignore the expectation on
+        # SOME cases (e.g. no header to compare when the run failed), so up to 25 cases are tried and at least one corrupted
+        # expectation must be flagged per comparator call; a comparator that never looks at the expectation fails the check.
         n = len(cases)
         if n:
-            idxs = [self.rng.randrange(n) for _ in range(min(5, n))]
-            for i in idxs:
+            self.canaries_planted += 1
+            flagged = False
+            for i in [self.rng.randrange(n) for _ in range(min(25, n))]:
                 bad = corrupt(expected[i]) if corrupt else ['CANARY', expected[i]]
-                self.canaries_planted += 1
                 try:
                     flagged = not rel(cases[i], bad, got[i])
                 except Exception:
                     flagged = True
                 if flagged:
-                    self.canaries_caught += 1
+                    break
+            if flagged:
+                self.canaries_caught += 1
+            elif os.environ.get('VERIF_DEBUG_CANARY'):
+                sys.stderr.write('CANARY MISSED theorem=%s\n' % theorem)
         for c, e, g in zip(cases, expected, got):
             if rel(c, e, g):
                 continue
